@@ -19,6 +19,15 @@ func runC05StmtInterleave(env *Env, rc *RunCtx, sys *Sys) {
 	orderSeed, order := uint64(t.Choose(1<<30)), t.Choose(3)
 	nX := []int{1, 2, 3, 7}[t.Choose(4)]
 	nY := []int{1, 2, 3, 9}[t.Choose(4)]
+	readerPage := 0
+	if t.Bool(1, 15) {
+		// now and then the node holds more than a thousand relationships and the
+		// reader asks for all of them in ONE page (sizes around the round numbers at
+		// which a large read would plausibly be split internally)
+		nY = []int{1001, 1500, 2100}[t.Choose(3)]
+		readerPage = []int{1000, 2000, 5000, 10000}[t.Choose(4)]
+		rc.Count("probe_single_page_over_1000_rows", 1)
+	}
 	var X, Y []Tuple
 	for i := 0; i < nX; i++ {
 		X = append(X, Tuple{NS: "N0", Obj: "doc", Rel: "r0", Sub: Subject{ID: fmt.Sprintf("x%d", i)}})
@@ -61,8 +70,12 @@ func runC05StmtInterleave(env *Env, rc *RunCtx, sys *Sys) {
 		reqs = append(reqs, &Request{Kind: "fn", Fn: func(ctx context.Context) any { return sys.With(ctx).Patch(ds) }})
 		for i := 0; i < nReaders; i++ {
 			reqs = append(reqs, &Request{Kind: "fn", Fn: func(ctx context.Context) any {
-				r, p := sys.With(ctx).ListREST(q, 0, "", false)
+				r, p := sys.With(ctx).ListREST(q, readerPage, "", readerPage > 0)
 				if p == nil {
+					return obs{resp: r}
+				}
+				if p.Next != "" {
+					// more than one page: pagination is not a snapshot (C07's business)
 					return obs{resp: r}
 				}
 				return obs{resp: r, v: view(p.Tuples), ok: true}
@@ -70,6 +83,7 @@ func runC05StmtInterleave(env *Env, rc *RunCtx, sys *Sys) {
 		}
 		plan := NoFaults()
 		plan.ParkSQL = true
+		plan.Sticky = []int{0, 0, 2, 8, 32, 128, 512}[et.Choose(7)]
 		for range reqs {
 			plan.StartAfter = append(plan.StartAfter, []int{0, 0, 1, 2, 3, 5, 8}[et.Choose(7)])
 		}
